@@ -57,7 +57,7 @@ def check(run):
     sub = q.const_local_subst(ip)
     pushes = [c for c in ip.calls() if (c.get('callee') or '').split('::')[-1] in ('push_back', 'emplace_back') and q.render(ip, c.get('obj')) == 'm_incoming_queue']
     adds = [a for a in q.field_accesses(ip, {U + '::m_queue_size'}) if a.kind == 'compound' and a.method == '+=']
-    okm = len(pushes) == 1 and len(adds) == 1 and ip.cfg.node_block(pushes[0]) == ip.cfg.node_block(adds[0].site)
+    okm = len(pushes) == 1 and len(adds) == 1 and q.paired(ip, pushes[0], adds[0].site)
     meas = q.linform(ip, adds[0].site['rhs'], sub) if adds else None
     run.check(okm and meas == ({'p.buffer.size()': 1}, 0), 'R9', 'enqueue-measure', U + '::incoming_packet', ip.loc(),
               'the enqueue adds %s to m_queue_size; every consumer subtracts payload bytes (p.buffer.size()) only, so the account drifts by the difference per datagram until the socket silently drops everything'
@@ -73,7 +73,7 @@ def check(run):
         k = None
         if len(c['args']) == 2 and a0 == FRONT + '.buffer.begin()' and a1:
             k = {s: v for s, v in a1[0].items() if s != FRONT + '.buffer.begin()'}
-        same = [s for s in subs if rf.cfg.node_block(s.site) == rf.cfg.node_block(c) and q.linform(rf, s.site['rhs']) == (k, 0)]
+        same = [s for s in subs if q.paired(rf, s.site, c) and q.linform(rf, s.site['rhs']) == (k, 0)]
         run.check(bool(same), 'R9', 'shrink-paired', U + '::receive_from_impl: p.buffer.erase', rf.loc(c), 'a datagram\'s payload is shortened without subtracting the same amount from m_queue_size', 'erase(begin, begin+k) paired with m_queue_size -= k')
     removes = [c for op, c in q.container_calls(rf, 'm_incoming_queue') if op in ('erase', 'pop_front', 'pop_back')]
     if not removes:
